@@ -60,6 +60,10 @@ impl Visitor<StatementPos> for InstructionGenerator {
                 self.push(Instruction::Label(name), pos);
             }
             Statement::GoTo(name) => {
+                // leaving the body of a FOR loop: drop the register frame of that body
+                for _ in 0..self.for_bodies_left_by_goto(&name) {
+                    self.push(Instruction::PopRegisters, pos);
+                }
                 self.push(Instruction::Jump(AddressOrLabel::Unresolved(name)), pos);
             }
             Statement::GoSub(label) => {
